@@ -1,0 +1,78 @@
+//go:build verif
+
+package layers
+
+// Contracts of the ag10 sweep (property C07: serializers never panic, every obtained byte is written).
+
+// ---- Geneve: the size pass and the write pass walk the same option list ------------------------------------------------
+// gnvPre(o, n): bytes taken by the first n options (4-byte option header + data rounded down to a multiple of 4).
+//@ spec rec gnvPre(o []*GeneveOption, n int) int = n <= 0 ? 0 : gnvPre(o, n-1) + 4 + 4*(len(o[n-1].Data)/4)
+
+// resource bound (assumed entry precondition, reported in evidence):
+//@ func (gn *Geneve) SerializeTo(b gopacket.SerializeBuffer, opts gopacket.SerializeOptions) error
+//@   props C07
+//@   requires len(gn.Options) <= 1073741824
+//@   requires forall i int :: 0 <= i && i < len(gn.Options) && gn.Options[i] != nil ==> len(gn.Options[i].Data) <= 1073741824
+//@   loop 0: invariant 0 <= rangeindex+1 && rangeindex+1 <= len(gn.Options) && optionsLength == gnvPre(gn.Options, rangeindex+1)
+//@   loop 0: invariant forall k int :: 0 <= k && k <= rangeindex ==> gn.Options[k] != nil
+//@   loop 0: invariant forall k int :: 0 <= k && k <= rangeindex+1 ==> 0 <= gnvPre(gn.Options, k) && gnvPre(gn.Options, k) <= gnvPre(gn.Options, rangeindex+1)
+//@   loop 0: invariant gnvPre(gn.Options, rangeindex+1) <= 1073741828*(rangeindex+1)
+//@   loop 1: invariant 0 <= rangeindex+1 && rangeindex+1 <= len(gn.Options) && offset == 8 + gnvPre(gn.Options, rangeindex+1)
+//@   loop 1: invariant len(bytes) == 8 + gnvPre(gn.Options, len(gn.Options))
+//@   loop 1: invariant forall k int :: 0 <= k && k < len(gn.Options) ==> gn.Options[k] != nil
+//@   loop 1: invariant forall k int :: 0 <= k && k <= len(gn.Options) ==> 0 <= gnvPre(gn.Options, k) && gnvPre(gn.Options, k) <= gnvPre(gn.Options, len(gn.Options))
+
+// ---- TCP: options are sized, then written; the padding fills the rest ----------------------------------------------------
+// tcpPre(t, n): bytes taken by the first n options (kind 0 and 1 are single bytes, every other option has kind, length, data).
+// (The spec takes the layer, not the slice: a slice-valued spec argument is an SMT array and made the solvers run out of budget.)
+//@ spec rec tcpPre(t *TCP, n int) int = n <= 0 ? 0 : tcpPre(t, n-1) + ((t.Options[n-1].OptionType == 0 || t.Options[n-1].OptionType == 1) ? 1 : 2 + len(t.Options[n-1].OptionData))
+
+// resource bound (assumed entry precondition, reported in evidence):
+//@ func (t *TCP) SerializeTo(b gopacket.SerializeBuffer, opts gopacket.SerializeOptions) error
+//@   props C07
+//@   requires len(t.Options) <= 1073741824 && len(t.Padding) <= 1073741824 && len(sbview(b)) <= 1000000000000
+//@   requires forall i int :: 0 <= i && i < len(t.Options) ==> len(t.Options[i].OptionData) <= 1073741824
+//@   requires tcpPre(t, len(t.Options)) <= 1073741824
+//@   loop 0: invariant 0 <= rangeindex+1 && rangeindex+1 <= len(t.Options) && optionLength == tcpPre(t, rangeindex+1)
+//@   loop 0: invariant forall k int :: 0 <= k && k <= rangeindex+1 ==> 0 <= tcpPre(t, k) && tcpPre(t, k) <= tcpPre(t, rangeindex+1)
+//@   loop 0: invariant tcpPre(t, rangeindex+1) <= 1073741826*(rangeindex+1)
+//@   loop 1: invariant 0 <= rangeindex+1 && rangeindex+1 <= len(t.Options) && start == 20 + tcpPre(t, rangeindex+1)
+//@   loop 1: invariant len(bytes) == 20 + tcpPre(t, len(t.Options)) + len(t.Padding)
+//@   loop 1: invariant forall k int :: 0 <= k && k <= len(t.Options) ==> 0 <= tcpPre(t, k) && tcpPre(t, k) <= tcpPre(t, len(t.Options))
+//@   loop 1: invariant inited(bytes, 18, start)
+
+// ---- Diameter: each AVP is rendered into a fresh zeroed slice of its padded length and copied behind the header ------
+// davpLen(v, n): serialized size of an AVP with n data bytes (12-byte header with a vendor id, else 8; padded to 4).
+//@ spec davpLen(v bool, n int) int = 4*(((v ? 12 : 8) + n + 3)/4)
+// diamPre(d, n): bytes taken by the first n AVPs.
+//@ spec rec diamPre(d *Diameter, n int) int = n <= 0 ? 0 : diamPre(d, n-1) + davpLen(d.AVPs[n-1].Flags.Vendor, len(d.AVPs[n-1].Data))
+
+// resource bound (assumed entry precondition, reported in evidence):
+//@ func SerializedAVPLength(avp *DiameterAVP) int
+//@   props C07
+//@   requires len(avp.Data) <= 1073741824
+//@   ensures result == davpLen(avp.Flags.Vendor, len(avp.Data))
+//@   modifies nothing
+
+// resource bound (assumed entry precondition, reported in evidence):
+//@ func SerializeDiameterAVP(avp *DiameterAVP) []byte
+//@   props C07
+//@   requires len(avp.Data) <= 1073741824
+//@   ensures len(result) == davpLen(avp.Flags.Vendor, len(avp.Data))
+//@   modifies alloc
+
+// resource bound (assumed entry precondition, reported in evidence):
+//@ func (d *Diameter) SerializeTo(b gopacket.SerializeBuffer, opts gopacket.SerializeOptions) error
+//@   props C07
+//@   requires len(d.AVPs) <= 1073741824
+//@   requires forall i int :: 0 <= i && i < len(d.AVPs) ==> len(d.AVPs[i].Data) <= 1073741824
+//@   loop 0: invariant 0 <= rangeindex+1 && rangeindex+1 <= len(d.AVPs) && messageLength == 20 + diamPre(d, rangeindex+1)
+//@   loop 0: invariant forall k int :: 0 <= k && k <= rangeindex+1 ==> 0 <= diamPre(d, k) && diamPre(d, k) <= diamPre(d, rangeindex+1)
+//@   loop 0: invariant diamPre(d, rangeindex+1) <= 1073741840*(rangeindex+1)
+//@   loop 1: invariant 0 <= rangeindex+1 && rangeindex+1 <= len(d.AVPs) && offset == 20 + diamPre(d, rangeindex+1)
+//@   loop 1: invariant len(bytes) == 20 + diamPre(d, len(d.AVPs))
+
+// ---- IPv6 routing header (after fix_1: reserved field zeroed, invalid addresses rejected) -------------------------------------
+//@ func (i *IPv6Routing) SerializeTo(b gopacket.SerializeBuffer, opts gopacket.SerializeOptions) error
+//@   props C07
+//@   loop 0: invariant inited(bytes, 0, 8 + 16*(rangeindex+1))
